@@ -219,6 +219,11 @@ func init() {
 							_ = f.Functions()
 							_ = f.Description()
 						}
+						_ = e.Information()
+					}
+					_ = L.Dev.Information()
+					_ = L.Dev.DestinationData()
+					{
 					}
 				case 1:
 					rds := L.Dev.RemoteDevices() // (map order: sort, the walk below has scheduling points)
@@ -226,7 +231,10 @@ func init() {
 					for _, rd := range rds {
 						_ = rd.Address()
 						_ = rd.DeviceType()
+						_ = rd.FeatureSet()
+						_ = rd.DestinationData()
 						_ = rd.UseCases()
+						_ = rd.Ski()
 						for _, e := range rd.Entities() {
 							_ = e.Description()
 							if a := e.Address(); a != nil && a.Device != nil {
